@@ -3,6 +3,7 @@ import Blue.Proofs.Proto
 import Blue.Proofs.ProtoMsg
 import Blue.Proofs.Varint
 import Blue.Proofs.ProtoSz
+import Blue.Proofs.ProtoTagSz
 import Blue.Proofs.ProtoUnknown
 import Blue.Proofs.ProtoFuel
 import Blue.Proofs.ProtoDeep
@@ -149,6 +150,20 @@ theorem scalar_roundtrip (s : Scalar) (v : Val) (h : WfScalar s v) (rest : List 
 theorem tag_roundtrip (t : Tag) (ht : validFieldNumber t.num = true) (rest : List Nat) :
     decTagE (encTag t ++ rest) = .ok (t, rest) ∧ encTag t = encVarint (t.num * 8 + t.wt.bits) :=
   ⟨decTagE_enc t ht rest, rfl⟩
+
+/-- `Tag::pack_sz` in closed form: a tag with a valid field number takes 1, 2, 3, 4 or 5 bytes
+    according to the field number's range (boundaries 2^4, 2^11, 2^18, 2^25), and that is the number
+    of bytes `Tag::pack` writes.  (The correspondence run drives the real `Tag` at every power of two
+    ±1 and at seeded field numbers of every bit length.) -/
+theorem tag_size_classes (t : Tag) (ht : validFieldNumber t.num = true) :
+    szTag t = (if t.num < 2 ^ 4 then 1 else if t.num < 2 ^ 11 then 2 else if t.num < 2 ^ 18 then 3
+      else if t.num < 2 ^ 25 then 4 else 5)
+    ∧ szTag t = (encTag t).length := szTag_classes t ht
+
+/-- non-vacuity: both sides of the last boundary, and the largest field number -/
+example : validFieldNumber 33554431 = true ∧ szTag ⟨33554431, .varint⟩ = 4
+    ∧ validFieldNumber 33554432 = true ∧ szTag ⟨33554432, .lengthDelimited⟩ = 5
+    ∧ szTag ⟨536870911, .thirtyTwo⟩ = 5 := by decide
 
 /-- the three rejection classes of `Tag::unpack` -/
 theorem tag_rejections (num w : Nat) (rest : List Nat) :
@@ -1043,6 +1058,7 @@ end Blue.Props.C15
 #print axioms Blue.Props.C15.fixed_roundtrip
 #print axioms Blue.Props.C15.scalar_roundtrip
 #print axioms Blue.Props.C15.tag_roundtrip
+#print axioms Blue.Props.C15.tag_size_classes
 #print axioms Blue.Props.C15.tag_rejections
 #print axioms Blue.Props.C15.field_number_rejections
 #print axioms Blue.Props.C15.message_roundtrip
